@@ -15,7 +15,7 @@ THEOREMS = [
     "DagBridge.dag_iter_edges_reachable", "DagBridge.dag_iter_mem_reachable", "DagBridge.ancestors_reachable",
     "DagBridge.descendants_reachable", "DagBridge.siblings_store", "DagBridge.go_to_reachable", "DagBridge.export_reachable",
     "DagBridge.assign_edges", "DagBridge.setChildren_edges_exact", "DagBridge.setParents_edges_exact",
-    "DagBridge.delete_edges", "DagBridge.rejected_edges",
+    "DagBridge.delete_edges", "DagBridge.rejected_edges", "DagBridge.step_refines", "DagBridge.run_refines",
 ]
 PROOF_IMPORTS = ["BigtreeProofs.Properties.C16", "BigtreeProofs.Properties.DagBridge"]
 RULE = ("one case = one DAG (edges in construction order, each added through a randomly chosen real setter: "
@@ -308,7 +308,10 @@ LEVEL_TEXT = ("proof: all clauses are Lean theorems about the executable model o
               "siblings_store, go_to_reachable, and export_reachable for C17); and every call has its documented effect on the "
               "edge list of the graph (assign_edges: nothing removed or reordered, accepted = old edges + the missing requested "
               "ones; setChildren_edges_exact / setParents_edges_exact: list-exact position; delete_edges: exactly the named edges "
-              "filtered out, order kept; rejected_edges: unchanged)")
+              "filtered out, order kept; rejected_edges: unchanged; step_refines / run_refines: over whole histories the final "
+              "edge list is the replay, on edge lists alone, of the documented effects of the accepted calls). The bridge itself is "
+              "tied to the code by C10's check: dag_iterator of the final state of a history vs Dag.dagIter of the graph read off "
+              "the model's final store")
 LEVEL_NOTE = ("dag_iter_edges: the yielded pairs are a permutation of the edge list (every edge exactly once, parent->child) "
               "whenever every node is weakly connected to the start node; dag_iter_mem gives the general form (exactly the edges "
               "of the start node's component); fuel_suffices: the fuel-bounded recursion equals the unbounded one. "
